@@ -99,7 +99,7 @@ PROPS = {
         rule=('cases = interleaved multi-endpoint histories; every decode call is one evaluation. A history is non-trivial iff >= 2 reassemblies were open simultaneously; '
               'distinct = distinct hash of the interleaving (endpoint order + completions per frame). Extra counters: wrap_crossings, trailing_byte_cases, zero_length_segments.'),
         assumptions=COMMON_ASSUME,
-        floors=dict(quick=dict(distinct_nontrivial=2000, wrap_crossings=100, trailing_byte_cases=1000, zero_length_segments=1000, exhaustive_merges=720, reassembled_totals_at_top_of_range=24),
+        floors=dict(quick=dict(distinct_nontrivial=2000, wrap_crossings=100, trailing_byte_cases=1000, zero_length_segments=1000, exhaustive_merges=720, reassembled_totals_at_top_of_range=24, trailing_trains_of_look_alike_messages=1000),
                     thorough=dict(distinct_nontrivial=50000, wrap_crossings=1000, exhaustive_merges=720)),
     ),
     'C06': dict(
